@@ -133,7 +133,10 @@ class Process(metaclass=abc.ABCMeta):
 
         self._parameters = copy.deepcopy(self.defaults)
         self._parameters = deep_merge(self._parameters, parameters)
-        self._schema_override: Schema = self._parameters.get('_schema', {})
+        # own copy of the dictionaries: merge_overrides() merges into them
+        # in place, and the caller may use the same '_schema' elsewhere
+        self._schema_override: Schema = deep_copy_internal(
+            self._parameters.get('_schema', {}))
         self._parallel = self._parameters.get('_parallel', False)
         self._condition_path: Optional[HierarchyPath] = None
         self._command_result: Any = None
